@@ -62,6 +62,15 @@ def listQ (env : Env) (t : T) (p : Str) (all : Bool) (want : Node → Bool) : SR
   | .err _ => (.err (some .isNotDir), t)
   | _ => (.unspecified, t)
 
+/-- lines of a text: split at '\n', a trailing newline does not start a new line, one '\r' before
+    a '\n' is dropped -/
+def specLines (s : Str) : List Str :=
+  let ps := Str.splitOn '\n' s
+  let stripCr (l : Str) : Str := if l.getLast? = some '\r' then l.dropLast else l
+  match ps.reverse with
+  | [] => []
+  | lastp :: initRev => (initRev.reverse.map stripCr) ++ (if lastp = [] then [] else [lastp])
+
 def permOk (m : Nat) : Bool := m < 0o10000
 
 /-- the reference behaviour; `none` = this op is not covered by the reference (only the
@@ -124,6 +133,25 @@ def specStep (env : Env) (t : T) : Op → Option SR
   | .allDirs p => some (listQ env t p true (fun n => n.kind = .dir))
   | .allFiles p => some (listQ env t p true (fun n => n.kind = .file))
   | .chmod p m => if permOk m then some (withPath env t p fun a => liftR (fun _ => .unit) (chmodOctal t a (some m) (some m) true)) else none
+  | .chmodB p c =>
+    if c.follow then none
+    else if c.sym = [] then
+      (if permOk c.dirs ∧ permOk c.files then
+        some (withPath env t p fun a => liftR (fun _ => .unit)
+          (chmodOctal t a (if c.dirs = 0 then none else some c.dirs) (if c.files = 0 then none else some c.files) c.recursive))
+       else none)
+    else if c.dirs = 0 ∧ c.files = 0 then
+      some (withPath env t p fun a => liftR (fun _ => .unit) (chmodSym t a c.sym c.recursive))
+    else none
+  | .writeLines p ls => some (withPath env t p fun a => liftR (fun _ => .unit) (writeAll t a (ls.flatMap (fun l => utf8 l ++ [10])) false))
+  | .appendLines p ls => some (withPath env t p fun a => liftR (fun _ => .unit) (writeAll t a (ls.flatMap (fun l => utf8 l ++ [10])) true))
+  | .appendLine p l => some (withPath env t p fun a => liftR (fun _ => .unit) (writeAll t a (utf8 l ++ [10]) true))
+  | .readLines p => some (withPath env t p fun a =>
+      match get t a with
+      | none => (.err (some .doesNotExist), t)
+      | some n => if n.kind = .file then
+          (match decodeUtf8 n.data with | some s => (.ok (.strs (specLines s)), t) | none => (.err none, t))
+        else if n.kind = .dir then (.err (some .isNotFile), t) else (.err none, t))
   | .chown p u g => some (withPath env t p fun a => liftR (fun _ => .unit) (chown t a (some u) (some g) true))
   | .chownB p c => if c.follow then none else some (withPath env t p fun a => liftR (fun _ => .unit) (chown t a c.uid c.gid c.recursive))
   | .moveP a b => some (withPath env t a fun sa => withPath env t b fun da => liftR (fun _ => .unit) (moveP t sa da))
@@ -159,6 +187,18 @@ def hasLinkChild (s : State) (env : Env) (p : Str) (all : Bool) : Bool :=
 def classOf (s : State) (env : Env) : Op → String
   | .dirs p | .files p => if hasLinkChild s env p false then "listing_includes_links" else "-"
   | .allDirs p | .allFiles p => if hasLinkChild s env p true then "listing_includes_links" else "-"
+  | .writeLines _ ls | .appendLines _ ls => if (joinLines ls).isNone then "empty_lines_noop" else "-"
+  | .appendLine _ l => if l = [] then "empty_lines_noop" else "-"
+  | .readlink p =>
+    match entryAt s env p with
+    | some (k, some e) => if e.link && e.rel ≠ relative (renderP (e.alt.getD [])) (renderP k.dropLast) then "moved_link_rel_stale" else "-"
+    | _ => "-"
+  | .chmodB _ c =>
+    if c.sym ≠ [] ∧ c.dirs = 0 ∧ c.files = 0 then
+      (match parseExpr c.sym with
+       | none => "sym_malformed"
+       | some cs => if cs.all (fun cl => cl.targets.all (· = 'a')) then "-" else "sym_kind_specific_clauses")
+    else "-"
   | .remove p => match entryAt s env p with | some ([], _) => "remove_root" | _ => "-"
   | .removeAll p => match entryAt s env p with | some ([], _) => "remove_all_root" | _ => "-"
   | .chmod _ m => if m = 0 then "chmod_zero" else "-"
